@@ -39,7 +39,7 @@ ASSUMPTIONS = ['ffi.buffer(owning array) and ffi.cast("uintptr_t", p) observe me
                'index/slice operands are Python ints or None (objects with __index__ are not in scope)',
                'the effect of a wrong-length slice assignment inside the slice is unspecified '
                '(model is resynchronised there); outside the slice nothing may change']
-BUDGET = {'quick': 800, 'thorough': 16000}
+BUDGET = {'quick': 2400, 'thorough': 48000}
 STEPS = {'quick': 40, 'thorough': 60}
 TIME = {'quick': 15, 'thorough': 800}
 CRASHY = True
